@@ -2,6 +2,7 @@ package main
 
 import (
 	"bufio"
+	"reflect"
 	"encoding/json"
 	"fmt"
 	"math/rand"
@@ -57,6 +58,9 @@ func (e *emitter) emit(c *Case) {
 		}
 	}
 	c.Prop = e.prop
+	for _, t := range c.Inputs {
+		normTJ(t)
+	}
 	if c.ID == "" {
 		c.ID = fmt.Sprintf("%s-%06d", e.prop, e.n)
 	}
@@ -140,3 +144,20 @@ func sameObj(a, b tensor.Tensor) bool {
 }
 
 func sp(s string) *string { return &s }
+
+// normTJ rewrites the readable data of an integer tensor to the values actually stored after Go's
+// conversion to the element type (e.g. 130 in an int8 tensor is -126), so that the driver sees what the
+// implementation saw.
+func normTJ(t *TJ) {
+	if t == nil || len(t.Bits) > 0 {
+		return
+	}
+	switch t.Dt {
+	case "i8", "i16", "i32", "i64", "u8", "u16", "u32", "u64", "bool":
+		b := mkBacking(t.Dt, t.Data)
+		rv := reflect.ValueOf(b)
+		for i := 0; i < rv.Len() && i < len(t.Data); i++ {
+			t.Data[i] = canonScalar(rv.Index(i).Interface())
+		}
+	}
+}
